@@ -44,6 +44,15 @@ def run(chk):
     import coxeter
 
     rng = chk.rng
+    # the batch contract of is_inside for every 2-D class
+    from .. import shapes as Z_
+    for cls_ in ("Circle", "Ellipse", "Polygon", "ConvexPolygon"):
+        sh_, _ = Z_.make(cls_, offset=False) if cls_ in ("Polygon", "ConvexPolygon") else Z_.make(cls_)
+        c_ = np.asarray(sh_.vertices, float).mean(0) if hasattr(sh_, "vertices") else np.asarray(sh_.centroid, float)
+        B_ = c_ + np.array([[0.1, 0.2, 0.0], [0.6, -0.3, 0.0], [3.0, 3.0, 0.0], [-0.2, 0.1, 0.0], [1.2, 0.1, 0.0], [-5.0, 0.0, 0.0]])
+        for prob_ in C.batch_contract(sh_.is_inside, B_, "b"):
+            chk.violation("batch-contract", dict(cls=cls_, what=prob_)); break
+        chk.count("batch-contract")
     npoly = 40 if chk.tier == "quick" else 600
     npts = 90 if chk.tier == "quick" else 300
     chk.notes["rule"] = ("simple polygons (C04 generator) x orientation x embedding (xy-plane exact frame / exact 3-D similarity / (N,2) input) "
